@@ -115,6 +115,36 @@ func runC03(p *core.Prog, r *core.Report) {
 	})
 
 	// ---- R4: undo chain in the call graph
+	r.Guard("C03.R3", "handleStepNew/reset", "per-block deltas dropped after every processed block", func() {
+		// the store readers look at the current block's deltas first: a block that executed modules and returned without
+		// resetting the stores leaves its deltas behind, and an undo (which repairs kv and size only) cannot remove them
+		fn := p.Func(pkgPipe, "Pipeline.handleStepNew")
+		r.Touch(core.FuncName(fn))
+		exec := p.FuncObj(pkgPipe, "Pipeline.executeModules")
+		reset := core.LiftThroughCalls(core.IsCallTo(p.FuncObj(pkgPipe, "Stores.resetStores")), 1)
+		calls := core.FindInstrs(fn, core.IsCallTo(exec))
+		if len(calls) == 0 {
+			core.Undecide("handleStepNew: no executeModules call")
+		}
+		for _, c := range calls {
+			// from the success edge of executeModules, every nil-error return passes resetStores
+			nilE := errNilEdges(fn, c)
+			ok := len(nilE) > 0
+			var hit ssa.Instruction
+			for _, e := range nilE {
+				start := e.From.Succs[e.Idx].Instrs[0]
+				q := core.PathQuery{Fn: fn, CutInstr: reset}
+				if h, reach := q.CanReach(start, func(x ssa.Instruction) bool { return core.ReturnsNilError(x) && !reset(x) }); reach && !reset(start) {
+					ok, hit = false, h
+				}
+			}
+			d := ""
+			if hit != nil {
+				d = "a success return is reachable after executeModules without resetStores: " + p.Pos(core.InstrPos(hit))
+			}
+			r.Check(ok, "C03.R3", "handleStepNew/reset-stores", "every block whose modules were executed ends, on success, with the stores' per-block deltas reset (whether or not its outputs were sent)", d, p.Pos(c.Pos()))
+		}
+	})
 	r.Guard("C03.R4", "undo-chain", "call-graph reachability", func() {
 		cg := p.CallGraph(false)
 		from := p.Func(pkgPipe, "Pipeline.handleStepUndo")
